@@ -126,6 +126,28 @@ func cmdCheck(args []string) int {
 	eng := newEngine(prog)
 	ck := &Checker{eng: eng, repo: *cf.repo, harness: *cf.harness, solverBin: *cf.z3, workers: *cf.workers, extra: extra, witnesses: *nwit}
 	states := ck.explore(insts)
+	// if-conversion is an optimisation with limits (it cannot merge pointer-valued locals): an instance whose
+	// code has changed so that a merge fails is explored again path by path instead of ending inconclusive
+	var retry []*Instance
+	retryAt := map[string]int{}
+	for i, st := range states {
+		for m := range st.engineErr {
+			if strings.Contains(m, "cannot merge") && len(st.in.Merge) > 0 {
+				c := *st.in
+				c.Merge, c.mergeFns = nil, map[string]bool{}
+				c.Note = strings.TrimSpace(c.Note + " (explored without if-conversion: a merge failed on the current source)")
+				retry = append(retry, &c)
+				retryAt[c.Name] = i
+				break
+			}
+		}
+	}
+	if len(retry) > 0 {
+		ck2 := &Checker{eng: eng, repo: ck.repo, harness: ck.harness, solverBin: ck.solverBin, workers: ck.workers, extra: extra, witnesses: ck.witnesses}
+		for _, st := range ck2.explore(retry) {
+			states[retryAt[st.in.Name]] = st
+		}
+	}
 	exploreT := time.Since(t0) - loadT
 
 	// classify violations
